@@ -297,7 +297,7 @@ def chunk_model_cells(pq, data, lf, tbl):
     return out, None
 
 
-def run_case(lf, table, scratch, cats=False, kv=False, light=False):
+def run_case(lf, table, scratch, cats=False, kv=False, light=False, pf_kwargs=None):
     """encode with the spec encoder, read with fastparquet -> dict(outcome, problems, ...)"""
     from harness import fmtlib
     pq = _pq()
@@ -339,9 +339,9 @@ def run_case(lf, table, scratch, cats=False, kv=False, light=False):
     import fastparquet
     try:
         if cats:
-            df = fastparquet.ParquetFile(fn).to_pandas(categories=[l["name"] for l in lf["leaves"]])
+            df = fastparquet.ParquetFile(fn, **(pf_kwargs or {})).to_pandas(categories=[l["name"] for l in lf["leaves"]])
         else:
-            df = fastparquet.ParquetFile(fn).to_pandas()
+            df = fastparquet.ParquetFile(fn, **(pf_kwargs or {})).to_pandas()
     except Exception as e:   # noqa
         import traceback
         res["outcome"] = "raised"
@@ -547,7 +547,7 @@ def _job(job):
     tmp = tempfile.mkdtemp(prefix="verif-C03w-", dir=_SCRATCH)
     try:
         try:
-            res = run_case(lf, table, tmp, cats=bool(expect.get("categories")), kv=bool(expect.get("kv")), light=bool(expect.get("light")))
+            res = run_case(lf, table, tmp, cats=bool(expect.get("categories")), kv=bool(expect.get("kv")), light=bool(expect.get("light")), pf_kwargs=expect.get("pf_kwargs"))
         except Exception:   # noqa
             import traceback
             return {"outcome": "harness-error", "err": traceback.format_exc()[-1500:], "problems": []}
@@ -832,8 +832,23 @@ def gen_jobs(ctx):
     #     high bytes set (deterministic block, identical on every run)
     cb = G.constant_block()
     for i, (lf, table) in enumerate(cb):
-        if not quick or i % 2 == (ctx.seed % 2) or lf["rgs"][0][0]["items"][1]["store"][2] in (9, 16, 17, 24, 25, 32):
-            jobs.append((lf, table, {"expect": "decode", "stream": "constant-rle-page"}))
+        if not quick or i % 2 == (ctx.seed % 2) or lf["rgs"][0][0]["items"][1]["store"][2] in (9, 16, 17, 24, 25, 32) or len(lf["rgs"][0][0]["items"][0]["vals"]) > 10000:
+            jobs.append((lf, table, dict({"expect": "decode", "stream": "constant-rle-page"},
+                                         **({"light": True} if len(lf["rgs"][0][0]["items"][0]["vals"]) > 10000 else {}))))
+    # 6f'. files naming fastparquet, fastparquet's own layout (one bit-packed run of whole bytes), dictionaries larger than a signed index of
+    #     that width addresses (deterministic block)
+    for lf, table, cats in G.high_index_block():
+        jobs.append((lf, table, dict({"expect": "decode", "stream": "high-index-fastparquet"}, **({"categories": True} if cats else {}),
+                                     **({"light": True} if len(lf["rgs"][0][0]["items"][0]["vals"]) > 10000 else {}))))
+    # 6f''. reader option pandas_nulls=False: nullable integer columns come back as float64 - pages with and without NULLs in one chunk
+    #      (the null-free v2 pages take the in-place paths), small values (exact in float64), v1 / v2, PLAIN and DELTA
+    for v2 in (False, True, True):
+        for encs in (["plain", "plain", "delta"], ["plain", "delta"], ["dict", "plain", "delta"]):      # ("delta" in the list keeps the values small)
+            for _ in range(2 if quick else 12):
+                add({"coltype": rng.choice([G.COLTYPES[10], G.COLTYPES[11]]), "encs": encs, "delta_bits": 7,
+                     "ncols": 1, "nrgs": rng.choice([1, 2]), "rows": rng.choice([12, 40]), "v2": v2, "optional": True, "split": "some",
+                     "created_by": "parquet-mr version 1.12.3"}, stream="pandas-nulls-false")
+                jobs[-1][2]["pf_kwargs"] = {"pandas_nulls": False}
     # 6g. BIG pages (>= 64 KiB uncompressed): dictionary page, then dictionary-encoded data pages (+ a PLAIN fallback page), every codec -
     #     what a page reader returns must not alias a buffer a later page overwrites.  Model ties are skipped for these (cost), the
     #     specification decoder still reads every file back (instance of the round trip) and the real reader is compared cell by cell
